@@ -1,4 +1,6 @@
 import RtenVerif.Lemmas.ByteBpe
+import RtenVerif.Lemmas.Utf8
+import RtenVerif.Generated.BpeByteTable
 
 /-!
 # C27 — Byte-level BPE tokenization round-trips and reports consistent offsets
@@ -323,5 +325,200 @@ theorem c27_slices (src : List Nat) (o0 : Nat) (offs : List Nat)
   rw [h2]
   unfold slice
   rw [List.take_of_length_le (by simp)]
+
+/-! ### The table extracted from the source -/
+
+/-- **C27.T1 (tie to the source).**  The model's `byteToChar` agrees, on all 256 bytes, with the
+table the translator `translate/bpe_byte_table.py` extracts from `rten-text/src/models/bpe.rs`
+(`is_printable` evaluated on `char::from(0..=255)`, then the two loops of `byte_to_char`). -/
+theorem c27_table_matches_source :
+    (List.range 256).map (fun b => (b, byteToChar b)) = Generated.BpeByteTable.byteToChar := by
+  decide +kernel
+
+/-- The extracted table is a bijection between the 256 bytes and 256 distinct code points
+(complete finite check on the generated table itself). -/
+theorem c27_source_table_bijective :
+    Generated.BpeByteTable.byteToChar.map (·.1) = List.range 256 ∧
+    (Generated.BpeByteTable.byteToChar.map (·.2)).Nodup := by
+  decide +kernel
+
+/-! ### `String::from_utf8`: the round trip on texts -/
+
+/-- **C27 (round trip, with UTF-8 validation).**  For every text given by its Unicode scalar
+values `cps` (so: every valid UTF-8 string, control characters, combining marks, astral
+characters, special-token text included), every vocabulary with distinct ids, every merge list
+`Bpe::new` accepts, no end-of-word suffix, added tokens not reusing vocabulary ids, and every
+lossless pre-tokenizer output on the text's bytes: `decode(encode(text))` — the token loop
+followed by `String::from_utf8` — returns exactly the text's bytes. -/
+theorem c27_roundtrip_utf8 (vocab : List (Str × Nat)) (merges : List (Str × Str)) (ign : Bool)
+    (added : List (Nat × List Nat)) (t : Bpe) (hnew : Bpe.new vocab merges none ign added = .ok t)
+    (hnd : (vocab.map (·.2)).Nodup)
+    (hadd : ∀ id s, strOf vocab id = some s → added.lookup id = none)
+    (cps : List Nat) (hs : ∀ c ∈ cps, Utf8.isScalar c = true) (pieces : List (Nat × Nat))
+    (hl : Tiles pieces 0 (Utf8.encode cps).length) (ids offs : List Nat)
+    (h : encode t (Utf8.encode cps).length (Utf8.encode cps) none pieces = some (ids, offs)) :
+    decode t ids = .ok (Utf8.encode cps) := by
+  have hd := c27_text_roundtrip vocab merges ign added t hnew hnd hadd (Utf8.encode cps)
+    (Utf8.encode_lt cps hs) pieces hl ids offs h
+  simp [decode, hd, Utf8.valid_encode cps hs]
+
+/-- Decoding a *prefix* of the tokens (streaming) either yields bytes or reports invalid UTF-8;
+it never fails with an unknown id or a panic: every id `encode` produces has a token string
+that maps back to bytes. -/
+theorem c27_decode_prefix_total (vocab : List (Str × Nat)) (merges : List (Str × Str)) (ign : Bool)
+    (added : List (Nat × List Nat)) (t : Bpe) (hnew : Bpe.new vocab merges none ign added = .ok t)
+    (hnd : (vocab.map (·.2)).Nodup)
+    (hadd : ∀ id s, strOf vocab id = some s → added.lookup id = none)
+    (piece : List Nat) (hb : ∀ b ∈ piece, b < 256) (k : Nat) :
+    ∃ bs, decodeIds t ((encodePiece t piece true).take k) = .ok bs := by
+  obtain ⟨hv, _, _, ha, _, _⟩ := new_ok_spec _ _ _ _ _ _ hnew
+  have hcat := encodePiece_cat vocab merges ign added t hnew hnd piece hb true
+  have hdec := decodeStr_map_byteToChar piece hb
+  -- split the token list and its concatenated string at `k`
+  have key : ∀ (toks : List Nat) (enc : Str) (bs : List Nat) (k : Nat),
+      cat t.vocab toks = some enc → decodeStr enc = some bs →
+      ∃ bs', decodeIds t (toks.take k) = .ok bs' := by
+    intro toks
+    induction toks with
+    | nil => intro enc bs k _ _; exact ⟨[], by simp [decodeIds]⟩
+    | cons id rest ih =>
+      intro enc bs k hc hd
+      cases k with
+      | zero => exact ⟨[], by simp [decodeIds]⟩
+      | succ k =>
+        obtain ⟨s, r, hs, hr, rfl⟩ := cat_cons_some _ id rest enc hc
+        obtain ⟨x, y, hx, hy, rfl⟩ := decodeStr_append_inv s r bs hd
+        obtain ⟨bs', hbs'⟩ := ih r y k hr hy
+        refine ⟨x ++ bs', ?_⟩
+        have hl : t.added.lookup id = none := by rw [ha]; exact hadd id s (by rw [← hv]; exact hs)
+        simp only [List.take_succ_cons, decodeIds, decodeOne, hl, hs, hx, hbs']
+  exact key _ _ _ k hcat hdec
+
+/-! ### The offsets partition the input -/
+
+theorem tiles_bounds : ∀ (pieces : List (Nat × Nat)) (a len : Nat), Tiles pieces a len →
+    a ≤ len ∧ (pieces.map (·.1)).Pairwise (· ≤ ·) ∧ ∀ p ∈ pieces, a ≤ p.1 ∧ p.1 ≤ p.2 ∧ p.2 ≤ len := by
+  intro pieces
+  induction pieces with
+  | nil => intro a len h; simp only [Tiles] at h; subst h; simp
+  | cons p rest ih =>
+    intro a len h
+    obtain ⟨s, e⟩ := p
+    simp only [Tiles] at h
+    obtain ⟨rfl, hse, hr⟩ := h
+    obtain ⟨h1, h2, h3⟩ := ih e len hr
+    refine ⟨by omega, ?_, ?_⟩
+    · rw [List.map_cons, List.pairwise_cons]
+      refine ⟨?_, h2⟩
+      intro x hx
+      rw [List.mem_map] at hx
+      obtain ⟨p, hp, rfl⟩ := hx
+      have := h3 p hp; omega
+    · intro p hp
+      rcases List.mem_cons.mp hp with rfl | hp
+      · exact ⟨Nat.le_refl _, hse, h1⟩
+      · have := h3 p hp; omega
+
+theorem encodePiece_ne_nil (vocab : List (Str × Nat)) (merges : List (Str × Str)) (ign : Bool)
+    (added : List (Nat × List Nat)) (t : Bpe) (hnew : Bpe.new vocab merges none ign added = .ok t)
+    (hnd : (vocab.map (·.2)).Nodup) (piece : List Nat) (hb : ∀ b ∈ piece, b < 256)
+    (hne : piece ≠ []) : encodePiece t piece true ≠ [] := by
+  intro h
+  have hcat := encodePiece_cat vocab merges ign added t hnew hnd piece hb true
+  rw [h] at hcat
+  simp only [cat, Option.some.injEq] at hcat
+  cases piece with
+  | nil => exact hne rfl
+  | cons b bs => simp at hcat
+
+/-- The first reported offset is where the tiling starts. -/
+theorem encodeStr_head (vocab : List (Str × Nat)) (merges : List (Str × Str)) (ign : Bool)
+    (added : List (Nat × List Nat)) (t : Bpe) (hnew : Bpe.new vocab merges none ign added = .ok t)
+    (hnd : (vocab.map (·.2)).Nodup) (text : List Nat) (hb : ∀ b ∈ text, b < 256) :
+    ∀ (pieces : List (Nat × Nat)) (a : Nat) (toks offs : List Nat), Tiles pieces a text.length →
+      encodeStr t text none 0 pieces = some (toks, offs) → toks ≠ [] → offs.head? = some a := by
+  intro pieces
+  induction pieces with
+  | nil =>
+    intro a toks offs _ h hne
+    simp only [encodeStr, Option.some.injEq, Prod.mk.injEq] at h
+    exact absurd h.1.symm hne
+  | cons p rest ih =>
+    intro a toks offs ht h hne
+    obtain ⟨s, e⟩ := p
+    have hbnd := tiles_bounds _ _ _ ht
+    simp only [Tiles] at ht
+    obtain ⟨rfl, hse, hrest⟩ := ht
+    simp only [encodeStr] at h
+    split at h
+    · rename_i o ts os ho hr
+      simp only [Option.some.injEq, Prod.mk.injEq] at h
+      obtain ⟨rfl, rfl⟩ := h
+      by_cases hlt : s < e
+      · have hele : e ≤ text.length := (hbnd.2.2 (s, e) (by simp)).2.2
+        have hsl : slice text s e ≠ [] := by
+          intro hnil
+          have : (slice text s e).length = 0 := by rw [hnil]; rfl
+          simp [slice] at this; omega
+        have hpne := encodePiece_ne_nil vocab merges ign added t hnew hnd (slice text s e)
+          (fun b hb' => hb b (mem_slice text s e b hb')) hsl
+        simp only [hlt, if_true] at ho ⊢
+        cases hp : encodePiece t (slice text s e) true with
+        | nil => exact absurd hp hpne
+        | cons x xs =>
+          rw [hp] at ho
+          simp only [List.isEmpty_cons, Bool.false_eq_true, if_false, mapOffset,
+            Option.some.injEq] at ho
+          simp [← ho]
+      · have hes : s = e := by omega
+        subst hes
+        simp only [hlt, if_false, List.nil_append, List.map_nil] at hne ⊢
+        exact ih s ts os hrest hr hne
+    · simp at h
+
+/-- **C27.T3 (partition).**  Lossless pre-tokenizer, no normalizer, at least one token: the
+reported `token_offsets` start at 0, are non-decreasing piece starts within the text and end
+with `text.len()`; every `text_for_token_range(i..i+1)` exists and the slices, in order,
+concatenate to the whole input — the offsets partition the input. -/
+theorem c27_offsets_partition (vocab : List (Str × Nat)) (merges : List (Str × Str)) (ign : Bool)
+    (added : List (Nat × List Nat)) (t : Bpe) (hnew : Bpe.new vocab merges none ign added = .ok t)
+    (hnd : (vocab.map (·.2)).Nodup) (text : List Nat) (hb : ∀ b ∈ text, b < 256)
+    (pieces : List (Nat × Nat)) (hl : Tiles pieces 0 text.length) (ids offs : List Nat)
+    (h : encode t text.length text none pieces = some (ids, offs)) (hne : ids ≠ []) :
+    offs.head? = some 0 ∧ offs.getLast? = some text.length ∧ offs.Pairwise (· ≤ ·) ∧
+    offs.length = ids.length + 1 ∧
+    ∃ segs : List (List Nat), tokenTexts text offs = segs.map some ∧ segs.flatten = text := by
+  unfold encode at h
+  split at h
+  · simp at h
+  · rename_i toks os hs
+    split at h
+    · rename_i hem
+      simp only [Option.some.injEq, Prod.mk.injEq] at h
+      exact absurd h.1.symm hne
+    · simp only [Option.some.injEq, Prod.mk.injEq] at h
+      obtain ⟨rfl, rfl⟩ := h
+      obtain ⟨hlen, hmem, hmono⟩ := c27_offsets t text none pieces toks os hs
+      obtain ⟨_, hstarts, hpb⟩ := tiles_bounds pieces 0 text.length hl
+      have hpw := hmono hstarts mapMono_none
+      have hhead := encodeStr_head vocab merges ign added t hnew hnd text hb pieces 0 toks os hl hs hne
+      have hle : ∀ x ∈ os, x ≤ text.length := by
+        intro x hx
+        obtain ⟨p, hp, _, hmo⟩ := hmem x hx
+        simp only [mapOffset, Option.some.injEq] at hmo
+        have := hpb p hp; omega
+      cases os with
+      | nil => simp at hhead
+      | cons o0 rest =>
+        simp only [List.head?_cons, Option.some.injEq] at hhead
+        subst hhead
+        obtain ⟨segs, h1, h2⟩ := c27_slices text 0 rest hpw hle
+        refine ⟨by simp, List.getLast?_concat, ?_, by simp [← hlen], segs, h1,
+          by simpa using h2⟩
+        rw [List.pairwise_append]
+        refine ⟨hpw, by simp, ?_⟩
+        intro a ha b hb'
+        simp only [List.mem_singleton] at hb'
+        rw [hb']; exact hle a ha
 
 end RtenVerif.ByteBpe
